@@ -843,6 +843,9 @@ func queryIntParamsRangeChecked(p *Prog, r *Reporter) {
 					return false
 				}
 				rel, c, ok := boundOnEdge(atom, holds, isPar)
+				if !ok {
+					rel, c, ok = helperBound(atom, holds, isPar)
+				}
 				return ok && impliesAtMost(rel, c, 1<<32-1)
 			}
 			mf := &MustFlow{Fn: fn, EdgeGen: edge, InstrGen: func(i ssa.Instruction) bool { return boundingCall(i, par, 0) }}
@@ -948,11 +951,40 @@ func intParamBoundFlowD(fn *ssa.Function, par *ssa.Parameter, d int) *MustFlow {
 		if !ok {
 			return false
 		}
-		rel, c, ok := boundOnEdge(atom, holds, func(v ssa.Value) bool { return v == par })
+		isPar := func(v ssa.Value) bool { return v == par }
+		rel, c, ok := boundOnEdge(atom, holds, isPar)
+		if !ok {
+			rel, c, ok = helperBound(atom, holds, isPar)
+		}
 		return ok && impliesAtMost(rel, c, 1<<32-1)
 	}}
 	mf.Run()
 	return mf
+}
+
+// helperBound: the condition is a call of a one-line comparison helper (`func f(x T) bool { return conv(x) <op> C }`) on
+// the selected value: the bound the helper's comparison gives for its argument.
+func helperBound(atom ssa.Value, holds bool, sel func(ssa.Value) bool) (string, int64, bool) {
+	c := callOf(atom)
+	if c == nil {
+		return "", 0, false
+	}
+	g := c.Common().StaticCallee()
+	if g == nil || len(g.Blocks) != 1 || g.Signature.Results().Len() != 1 {
+		return "", 0, false
+	}
+	ret, ok := g.Blocks[0].Instrs[len(g.Blocks[0].Instrs)-1].(*ssa.Return)
+	if !ok {
+		return "", 0, false
+	}
+	for i, a := range c.Call.Args {
+		if !sel(stripConvs(a)) || i >= len(g.Params) {
+			continue
+		}
+		gp := g.Params[i]
+		return boundOnEdge(ret.Results[0], holds, func(v ssa.Value) bool { return v == ssa.Value(gp) })
+	}
+	return "", 0, false
 }
 
 // boundedAtCalls: fn is unexported and at every call the argument for par is not derived from an unbounded int parameter
